@@ -50,7 +50,7 @@ class Controller(object):
                 raise HarnessError("schedule for call %d is not a permutation of %d tasks: %r"
                                    % (ci, n, perm))
         if mode is None:
-            mode = self.default_mode
+            mode = "eager" if kind in ("map", "map_async") else self.default_mode
         self.calls.append({"kind": kind, "n": n, "flavor": flavor, "perm": perm, "mode": mode})
         return ci, perm, mode
 
@@ -162,6 +162,49 @@ class _UnorderedIter(object):
     next = __next__
 
 
+class _AsyncResult(object):
+    def __init__(self, st, callback, error_callback, single):
+        self.st, self.cb, self.ecb, self.single = st, callback, error_callback, single
+        self.done = False
+        self.value = None
+        self.failure = None
+
+    def _complete(self):
+        if self.done:
+            return
+        self.st.run_all()
+        self.done = True
+        for t in self.st.perm:
+            if isinstance(self.st.results[t], _Failure):
+                self.failure = self.st.results[t]
+                break
+        if self.failure is not None:
+            if self.ecb is not None:
+                self.ecb(self.failure.exc)
+            return
+        vals = [self.st.results[t] for t in range(len(self.st.tasks))]
+        self.value = vals[0] if self.single else vals
+        if self.cb is not None:
+            self.cb(self.value)
+
+    def get(self, timeout=None):
+        self._complete()
+        if self.failure is not None:
+            raise self.failure.exc
+        return self.value
+
+    def wait(self, timeout=None):
+        self._complete()
+
+    def ready(self):
+        return self.done
+
+    def successful(self):
+        if not self.done:
+            raise ValueError("not ready")
+        return self.failure is None
+
+
 class FakePool(object):
     flavor = "mp"
 
@@ -224,7 +267,35 @@ class FakePool(object):
         return self.map(func, *zip(*list(iterable)))
 
     def apply(self, func, args=(), kwds={}):
-        return self.map(lambda a: func(*a, **kwds), [args])[0]
+        return self.apply_async(func, args, kwds).get()
+
+    # asynchronous calls: the whole call completes (and its callback fires) either at submission ("eager":
+    # the workers are faster than the parent) or when the parent first waits for it ("lazy": the parent
+    # runs ahead; a later eager call then completes - and calls back - BEFORE this one)
+    def map_async(self, func, iterable, chunksize=None, callback=None, error_callback=None):
+        st, mode = self._start("map_async", func, list(iterable))
+        res = _AsyncResult(st, callback, error_callback, single=False)
+        self.__dict__.setdefault("_pending", []).append(res)
+        if mode == "eager":
+            res._complete()
+        return res
+
+    def starmap_async(self, func, iterable, chunksize=None, callback=None, error_callback=None):
+        st, mode = self._start("map_async", func, [_Star(tuple(a)) for a in iterable])
+        res = _AsyncResult(st, callback, error_callback, single=False)
+        if mode == "eager":
+            res._complete()
+        return res
+
+    def apply_async(self, func, args=(), kwds={}, callback=None, error_callback=None):
+        if kwds:
+            import functools
+            func = functools.partial(func, **kwds)
+        st, mode = self._start("map_async", func, [_Star(tuple(args))])
+        res = _AsyncResult(st, callback, error_callback, single=True)
+        if mode == "eager":
+            res._complete()
+        return res
 
     # pathos spellings
     uimap = imap_unordered
@@ -247,7 +318,9 @@ class FakePool(object):
         self.closed = True
 
     def join(self):
-        pass
+        # every outstanding asynchronous call completes before join() returns
+        for r in list(getattr(self, "_pending", [])):
+            r._complete()
 
     def clear(self):
         pass
